@@ -16,7 +16,8 @@ NEXT = ("next",)
 
 
 class LoopSpec:
-    def __init__(self, invariant=(), modifies=None, unroll=None, note=""):
+    def __init__(self, invariant=(), modifies=None, unroll=None, note="", elem=None):
+        self.elem = elem             # element type of the list built by an effectful comprehension
         self.invariant = list(invariant)
         self.modifies = modifies     # None: havoc whole heap; else list of 'Class.field' / '$alloc'
         self.unroll = unroll
@@ -138,7 +139,7 @@ class StmtMixin:
 
     # ---------------------------------------------------------------- assignment
     def ex_Assign(self, s, p):
-        if isinstance(s.value, ast.List) and not s.value.elts:
+        if isinstance(s.value, ast.List):
             self.pending_list_hint = self._list_hint_for(s.targets[0], p)
 
         def k(q, v):
@@ -159,7 +160,7 @@ class StmtMixin:
     def ex_AnnAssign(self, s, p):
         if s.value is None:
             return [(p, NEXT)]
-        if isinstance(s.value, ast.List) and not s.value.elts:
+        if isinstance(s.value, ast.List):
             self.pending_list_hint = self._list_hint_for(s.target, p)
         return self.lift(self.ev(s.value, p), lambda q, v: self.assign(s.target, v, q))
 
@@ -180,8 +181,6 @@ class StmtMixin:
     def assign(self, target, v: V, p: Path):
         if isinstance(target, ast.Name):
             ty = p.frame.fn.local_types.get(target.id) if p.frame.fn is not None else None
-            if ty is not None and not isinstance(ty, TRef.__mro__[0]) :
-                pass
             p.frame_for_store(target.id).locals[target.id] = v if ty is None else self._coerce_local(v, ty)
             return [(p, NEXT)]
         if isinstance(target, (ast.Tuple, ast.List)):
@@ -599,35 +598,39 @@ class StmtMixin:
 
     def loop_env(self, p, ordinal, kind, entry_heap):
         env = {"$loop_heap": entry_heap}
+        acc = p.frame.locals.get(f"$acc{ordinal}")
+        if acc is not None:
+            env["acc"] = acc
         if kind == "for":
             env["k"] = p.frame.locals[f"$k{ordinal}"]
             env["it"] = p.frame.locals[f"$it{ordinal}"]
         return env
 
+    def expand_modifies(self, modifies):
+        keys = []
+        for m in modifies:
+            if m == "$alloc":
+                keys.append(self.ALLOC)
+                continue
+            c, f = m.rsplit(".", 1)
+            if f == "*":
+                for fn_ in self.classes[c].fields:
+                    keys.append((c, fn_))
+            else:
+                keys.append(self.heap_key(c, f)[0])
+        return keys
+
     def havoc_for_spec(self, p, modifies):
         if modifies is None:
             self.havoc_heap(p, None)
         else:
-            keys = []
-            for m in modifies:
-                if m == "$alloc":
-                    keys.append(self.ALLOC)
-                else:
-                    c, f = m.rsplit(".", 1)
-                    keys.append((c, f))
-            self.havoc_heap(p, keys)
+            self.havoc_heap(p, self.expand_modifies(modifies))
 
     def check_loop_frame(self, p, spec, havoc_heap, L):
         """Fields outside the declared loop frame must be left unchanged by the body."""
         if spec.modifies is None:
             return
-        allowed = set()
-        for m in spec.modifies:
-            if m == "$alloc":
-                allowed.add(self.ALLOC)
-            else:
-                c, f = m.rsplit(".", 1)
-                allowed.add(self.heap_key(c, f)[0])
+        allowed = set(self.expand_modifies(spec.modifies))
         for key, arrs in p.heap.items():
             if key in allowed:
                 continue
